@@ -8,7 +8,7 @@ CHECK = {
                      "ClusterVerif/Lemmas/C18SyncClusterA.lean", "ClusterVerif/Lemmas/C18SyncClusterB.lean",
                      "ClusterVerif/Lemmas/C18SyncClusterC.lean", "ClusterVerif/Lemmas/C18SyncClusterR.lean",
                      "ClusterVerif/Model/C18SyncProgs2.lean", "ClusterVerif/Model/C18Inventory.lean", "ClusterVerif/Lemmas/C18SyncMoreA.lean",
-                     "ClusterVerif/Lemmas/C18SyncMoreB.lean", "ClusterVerif/Lemmas/C18SyncMoreR.lean"],
+                     "ClusterVerif/Lemmas/C18SyncMoreB.lean", "ClusterVerif/Lemmas/C18SyncMoreR.lean", "ClusterVerif/Lemmas/C18SyncClusterS.lean", "ClusterVerif/Model/C18ChanOps.lean"],
     "search_seeds": {"quick": 1, "thorough": 2},
     "rule": "n = seconds of soak per structure (alerts, window, metrics store+checker, operation tracker, stateless tracker, informers, crdt batching, "
             "tracker / crdt / Cluster life cycles: Shutdown racing the API — every other tracker / crdt generation with queues of 1 / 2 items so that the "
@@ -34,7 +34,8 @@ CHECK = {
                     "the step from 'no racy state is reachable' to 'every pair of conflicting accesses is happens-before ordered' is not proved",
                     "Cluster life-cycle model: the whole protocol at once (8033 states, passes when evaluated) is certified as three scenarios with two concurrent Shutdowns each; "
                     "Shutdown's leave-the-cluster branch is a free choice (superset of the real guard), its `return err` arms are not transcribed; watchPeers' loop is unrolled once "
-                    "(an iteration that finds the peer in the peerset changes no shared state); that this loses no behaviour is argued in notes/C18.md, not proved",
+                    "(an iteration that finds the peer in the peerset changes no shared state); that this loses no behaviour is argued in notes/C18.md, not proved — since round 8b the "
+                    "scenario with the loop as written (progCS, 1858 states) is kernel-certified too (cluster_shutdown_safe_loop: no panic, no racy state), only its liveness reading is weaker",
                     "a soak that sees no race, panic or stall proves nothing by itself: the universal claim rests on the lockset theorems + the regenerated table",
                     "initialisation before publication is exempt: key/value initialisers inside the composite literal of the owning struct",
                     "round 8b models: loops are unrolled (Checker.Watch three ticks, the alert consumer two receptions), queues have capacity 1 or 2, the tracker in use is certified as two "
